@@ -40,6 +40,8 @@ type Scenario struct {
 	// Horizon/MaxSteps override the scheduler defaults
 	Horizon  int
 	MaxSteps int
+	// ClockChoices is passed to the scheduler (timers firing early as a deviation)
+	ClockChoices int
 }
 
 type Options struct {
@@ -80,7 +82,7 @@ func stepsBrief(res *vs.Result) []string {
 }
 
 func runOnce(t *testing.T, sc Scenario, prefix, prefixN []int) Exec {
-	cfg := vs.Config{Prefix: prefix, PrefixN: prefixN, Horizon: sc.Horizon, MaxSteps: sc.MaxSteps}
+	cfg := vs.Config{Prefix: prefix, PrefixN: prefixN, Horizon: sc.Horizon, MaxSteps: sc.MaxSteps, ClockChoices: sc.ClockChoices}
 	return sc.Run(t, cfg)
 }
 
